@@ -204,7 +204,14 @@ RULE = ("k: every token sequence over {atom ( ) and or not} up to length 5 (quic
         "well-formed skeleton with (atoms, <=parens, <=nots) in {(1,2,2),(2,2,2),(3,2,2),(4,2,1)} (quick; of the 4-atom "
         "skeletons those with two pairs of parentheses and a not are sampled 1 in 3) / "
         "{(1,3,3),(2,3,3),(3,3,3),(4,2,2),(5,2,1)} (thorough), atoms distinct, all 2^n assignments; constants, a "
-        "string-typed symbol, repeated atoms; 200 / 5000 random skeletons with 5-8 atoms; related operands: every "
+        "string-typed symbol, repeated atoms; 200 / 5000 random skeletons with 5-8 atoms; large skeletons (49 / ~250 "
+        "cases, atom occurrence i = symbol i mod m or a neutral constant except at marked positions, m <= 8, all 2^m "
+        "assignments): chains of one connective with 33, 34, 40 (quick) / 33..66, 129 (thorough) operands on one level, "
+        "each operand bare / in redundant parentheses / `(not x)`; alternating and/or chains of 16 / 18-22 operands; "
+        "the same spines of 65, 130 / 33..400 operands written with explicit right or left nesting; bushy trees with "
+        "2-8 operands per level and up to 256 / 512 parenthesised leaves; 33, 65, 129 / 32..400 pairs of redundant "
+        "parentheses, also with `not` in front of every (second) pair, around an atom / and / or / mixed core and as an "
+        "operand; right- and left-nested alternating and/or trees of 33, 100, 130 / 33..400 atoms; related operands: every "
         "ordered pair of bracketings of one sequence of 3..4 (quick) / 3..5 (thorough) atoms x every connective "
         "sequence x {and, or} (3 atoms: also negated / with parentheses left out), constants next to a string-typed "
         "symbol, 900 / 8000 random members with 3-8 atoms per operand (the same sequence grouped in two ways, "
